@@ -148,6 +148,8 @@ let conc file =
        if String.length line >= 8 && String.sub line 0 8 = "PROPFAIL" then begin
          incr propfail;
          if !propfail <= 20 then print_endline line
+       end else if String.length line > 0 && line.[0] = '#' then begin
+         ()  (* a comment / summary line of the harness *)
        end else if String.length line > 0 && line.[0] = '@' then begin
          (* @name args => results *)
          let sp = String.index line ' ' in
